@@ -31,7 +31,7 @@ def check(ctx):
     model = ctx.model
     cm = model.module(CACHE)
     st = cm.func("Cache._start")
-    stores = [n for n in walk_no_nested(st) if isinstance(n, ast.Assign) and any(isinstance(t, ast.Subscript) and unparse(t.value) == "dsk" for t in n.targets)]
+    stores = [n for n in walk_no_nested(st) if isinstance(n, ast.Assign) and any(isinstance(t, ast.Subscript) and eqv(t.value, "dsk") for t in n.targets)]
     ctx.count("cache_graph_stores", len(stores))
     ctx.floor("cache_graph_stores", 1)
     for n in stores:
@@ -63,7 +63,7 @@ def check(ctx):
     w1 = find("self._results[key] = M_v", pre, nested=False)
     ok = len(w1) == 1 and isinstance(w1[0][1]["M_v"], ast.Tuple) and [unparse(e) for e in w1[0][1]["M_v"].elts] == ["key", "dsk[key]", "start"]
     ctx.ob("TAB.profiler.pretask", pre, "pretask writes (key, dsk[key], start)", ok, "" if ok else (unparse(w1[0][1]["M_v"]) if w1 else "no record written"))
-    w2 = [n for n in walk_no_nested(post) if isinstance(n, ast.AugAssign) and unparse(n.target) == "self._results[key]" and isinstance(n.op, ast.Add)]
+    w2 = [n for n in walk_no_nested(post) if isinstance(n, ast.AugAssign) and eqv(n.target, "self._results[key]") and isinstance(n.op, ast.Add)]
     ok = len(w2) == 1 and isinstance(w2[0].value, ast.Tuple) and [unparse(e) for e in w2[0].value.elts] == ["end", "id"]
     ctx.ob("TAB.profiler.posttask", post, "posttask appends (end, id)", ok, "" if ok else (unparse(w2[0].value) if w2 else "no record completed"))
     n1 = len(w1[0][1]["M_v"].elts) if w1 and isinstance(w1[0][1]["M_v"], ast.Tuple) else 0
